@@ -265,7 +265,8 @@ def family_bases() -> list:
     return bases
 
 
-def run(tier: str) -> int:
+def run(tier: str, only: dict | None = None) -> int:
+    """`only` (replay): {'family', 'parameter', 'case', 'clause'} - judge that one enumerated case again."""
     res = Result('C07', tier)
     r = tlc.run_tlc('ReadParam', 'MC_ReadParam.cfg', workers=4)
     tlc.check_mc(r, 'MC_ReadParam.cfg', ['ReadStep'])
@@ -280,6 +281,10 @@ def run(tier: str) -> int:
     bases = family_bases()
     res.cov['families'] = [b[0] for b in bases]
     jobs = [j for lst in sim.call_in_pool('harness.c07:enumerate_family', bases) for j in lst]
+    if only is not None:
+        jobs = [j for j in jobs if (j['family'], j['name'], j['label']) == (only['family'], only['parameter'], only['case'])]
+        if not jobs:
+            raise MachineryFailure(f'replay: the recorded case {only} is no longer enumerated')
     outcomes = sim.call_in_pool('harness.c07:run_case', jobs)
     traces = []
     for k, o in enumerate(outcomes):
@@ -314,6 +319,8 @@ def run(tier: str) -> int:
     cand = [j for j, o in zip(jobs, outcomes) if o['outcome'] == 'rejected' and j['family'] != 'hip_ra_x']
     rng.shuffle(cand)
     sub = cand[: (48 if tier == 'quick' else 600)]
+    if only is not None:
+        sub = [j for j in jobs if j['family'] != 'hip_ra_x'] if only.get('clause') == 'C07_no_result' else []
     e2e = sim.call_in_pool('harness.c07:end_to_end', sub)
     for o in e2e:
         res.count('end_to_end_cases')
@@ -322,6 +329,8 @@ def run(tier: str) -> int:
         if o['raised'] != 'RuntimeError' or o['report']:
             res.violation({'clause': 'C07_no_result', 'family': o['family'], 'parameter': o['name'], 'case': o['label']},
                           f"client did not refuse '{o['name']}, {o['text']}' cleanly: raised={o['raised']} report_written={o['report']}", o)
+    if only is not None:
+        return res.finish()
     res.sample({'case': {k: outcomes[0][k] for k in ('family', 'name', 'label', 'text', 'outcome', 'after', 'error')}, 'declared': outcomes[0]['p']})
     mid = outcomes[len(outcomes) // 2]
     res.sample({'case': {k: mid[k] for k in ('family', 'name', 'label', 'text', 'outcome', 'after', 'error')}, 'declared': mid['p']})
@@ -338,6 +347,6 @@ def run(tier: str) -> int:
 
 
 def replay(path: str) -> int:
-    data = json.loads(open(path).read())
-    print(json.dumps(data['replay'], indent=1)[:2000])
-    return 0
+    """Read the recorded `parameter, value` line again through the real reader (and the client for C07_no_result) and judge it."""
+    key = json.loads(open(path).read())['key']
+    return run('quick', {k: key.get(k) for k in ('family', 'parameter', 'case', 'clause')})
